@@ -69,7 +69,22 @@ def t_set(xs, ys):
 """, [('xs', L('Nat')), ('ys', L('Nat'))], 'Int', {'seen': ('Set', 'Nat'), 'x': 'Nat', 'both': ('Set', 'Nat')}, {}),
 ]
 
+# stage-4 idiom: a function that may raise (`Except PyErr`), KeyError of d[k]
+POS4 = [
+    ("""
+def t_exc(d, ks):
+    out = []
+    for k in ks:
+        v = d[k]
+        out.append(v + 1)
+    return out
+""", [('d', D('String', 'Nat')), ('ks', L('String'))], L('Nat'), {'out': L('Nat'), 'k': 'String', 'v': 'Nat'},
+     dict(raises=True)),
+]
+
 NEG = [
+    ('d[k] in a function without an exception result', "def f(d, k):\n    return d[k]\n",
+     [('d', D('String', 'Nat')), ('k', 'String')], 'Nat', {}),
     ('row stored and mutated afterwards', "def f(xs):\n    out = []\n    for x in xs:\n        r = [x]\n        out.append(r)\n        r.append(x)\n    return out\n",
      [('xs', L('Nat'))], L(L('Nat')), {'out': L(L('Nat')), 'x': 'Nat', 'r': L('Nat')}),
     ('list parameter rebound', "def f(xs):\n    xs = [1]\n    return xs\n", [('xs', L('Nat'))], L('Nat'), {}),
@@ -127,6 +142,10 @@ def main():
     text += '#guard t_xrange 4 2 = ([] : List (Int × Int))\n'
     assert env['t_xrange'](4, 2) == []
     text += '#guard t_dict ["b", "a", "b", "c"] = %s\n' % lit(env['t_dict'](['b', 'a', 'b', 'c']))
+    for src, params, ret, locs, extra in POS4:
+        text += run(src, params, ret, locs, **extra) + '\n'
+    text += '#guard (match t_exc [("a", 1), ("b", 5)] ["b", "a"] with | .ok v => v == [6, 2] | .error _ => false)\n'
+    text += '#guard (match t_exc [("a", 1)] ["a", "zz"] with | .ok _ => false | .error e => e == PyErr.other)\n'
     env3 = {'floor': __import__('math').floor}
     exec(POS3[0][0] + POS3[1][0], env3)
     text += '#guard t_rec 10 [1, 5, 0, 7, 3] 0 4 = %s\n' % lit(env3['t_rec']([1, 5, 0, 7, 3], 0, 4))
@@ -139,6 +158,13 @@ def main():
     print('positive cases compile and evaluate:', r.returncode == 0, r.stdout[-2000:], r.stderr[-500:])
     ok &= r.returncode == 0
     os.unlink(fh.name)
+    try:
+        out = run("def f(d, k):\n    out = []\n    if k == 'x' or d[k] > 0:\n        out.append(1)\n    return out\n",
+                  [('d', D('String', 'Nat')), ('k', 'String')], L('Nat'), {'out': L('Nat')}, raises=True)
+        print('NOT REFUSED: raising expression under `or`\n%s' % out)
+        ok = False
+    except T.Untranslatable as e:
+        print('refused  %-40s %s' % ('raising expression under `or`', e))
     for name, src, params, ret, locs in NEG:
         try:
             out = run(src, params, ret, locs)
